@@ -242,6 +242,7 @@ class PointList(Node):
         for f,t in zip(self.fields,self.types):
             assert(t.shape == ()), f"PointList fields must be scalars to be saved; field '{f}' has the sub-array dtype {t}"
             assert('/' not in f), f"field names can't contain '/' - HDF5 would read '{f}' as a path"
+            assert(len(f)>0 and '\x00' not in f and f != 'metadatabundle'), f"field names can't be empty, contain NUL characters, or be 'metadatabundle'"
             group_current_field = grp.create_dataset(
                 f,
                 data = np.atleast_1d(self.data[f])
